@@ -15,7 +15,69 @@ _CHAN_NOTE = ("Trusts the vsim model of mutex/condition/join (POSIX semantics, s
               "at channel-call granularity plus an explicit pause between the writer's wait-condition check and its sleep; "
               "abort_write+write_unmap is one writer step (as in source.c); a mapped reader never maps again.")
 
+_RT_NOTE = ("Trusts the vsim model (POSIX mutex/condition/join semantics, sequential consistency, scheduling points at platform calls and at "
+            "every 4th consecutive clock read; no spurious wake-ups), the scripted mock devices (harness/rt/vmock.cpp) and the client grammar "
+            "(tier A: configure only while not running, MAP never on a mapped reader, whole-frame consumption, stop only for finite "
+            "acquisitions - documented back-pressure makes the other programs hang by design). Rings hold 1.1-8 frames instead of 1 GiB "
+            "(sink.c/filter.c compiled with channel_new renamed). Races inside one basic block and weak-memory effects are not explored.")
+
+
+def _rt(text, technique, ref):
+    return {"level": "exploration", "text": text, "note": _RT_NOTE, "technique": technique, "design_ref": ref}
+
+
 CHECKS = {
+    "C04": _rt("The real runtime (acquire.c, source/filter/sink threads, channel, HAL, loader, device manager) runs on the real platform.c over a "
+               "deterministic fiber scheduler; cameras and storage are scripted mock devices loaded by the real loader through a trampoline "
+               "driver library. Generated cases choose frame shapes/types, frame counts, ring capacity (1.1-8 frames, so every acquisition wraps), "
+               "camera pacing, no-frame returns, hardware id gaps, storage and client speed, write delay, one or two streams, client programs and "
+               "the thread schedule (walk/PCT). After stop of a finite acquisition the bytes the storage device received are parsed and must equal "
+               "the frames the camera delivered: count, frame ids, hardware ids, shape and every pixel byte (a PRF of camera/run/frame); streams "
+               "must not mix.",
+               "property-based testing over generated configurations, client programs and schedules (deterministic scheduler) with a camera-log == storage-log oracle",
+               "DESIGN.md section 3, harness rt, C04"),
+    "C05": _rt("Same runs as C04: every packet handed to the mock storage and every region mapped by the monitoring client is walked: 8-byte "
+               "aligned start, each header's size field == header + image bytes rounded up to 8, stepping lands exactly on the next header "
+               "and on the packet end, the shape equals what the camera reported for that frame, and storage packets lie inside the stream's ring. "
+               "Generator biased to u8/i8 and odd sizes so all residues mod 8 occur.",
+               "property-based testing with a packet-walker invariant on every storage append and monitor map",
+               "DESIGN.md section 3, harness rt, C05"),
+    "C06": _rt("The client fiber maps/unmaps the monitor with generated polling styles (everything, all but the last frame, one frame at a time, "
+               "slow polling, holding a region, first use in a later acquisition) over several acquisitions ended by stop, abort and abort from "
+               "a second thread. Oracle: regions start at the first unconsumed frame, ids consecutive, pixels equal the camera's, every frame "
+               "belongs to the current acquisition, map/unmap keep returning Ok, nothing is delivered once stop/abort returned; storage is judged "
+               "by the C04 oracle regardless of the client.",
+               "property-based testing of client polling programs x schedules with a monitor-log oracle (sequence, freshness, pixels)",
+               "DESIGN.md section 3, harness rt, C06"),
+    "C07": _rt("Abort (same thread, other thread) and stop are generated at arbitrary program positions and schedules: camera waiting for a "
+               "trigger, ring full behind a slow storage, client holding a mapped region, averaging active, acquisition already finished. Hangs "
+               "are decided by the scheduler (deadlock: nothing runnable; or no device call for 1 s of virtual time while Running), never by a "
+               "wall-clock timeout. After abort: workers gone, camera and storage stopped, state Armed, storage holds a bit-exact gap-free prefix; the "
+               "follow-up acquisition must satisfy the C04 oracle with no leftovers.",
+               "property-based testing over abort points x schedules with deadlock detection, prefix oracle and follow-up acquisition oracle",
+               "DESIGN.md section 3, harness rt, C07"),
+    "C08": _rt("Every mock device instance carries a life-cycle automaton (open once; start only when not started; exactly one stop per start; "
+               "frame/append only while started; no call after close; closed exactly once by shutdown at the latest; released instances are "
+               "snapshotted and re-compared). Client programs from the usage grammar (configure, start, trigger, monitor, stop, abort, "
+               "re-configure with other devices, stream on/off, shutdown+init) run under generated schedules; acquire_get_state == Running is "
+               "cross-checked with live worker fibers and must be Armed after stop/abort.",
+               "property-based testing of API programs with a per-device life-cycle automaton",
+               "DESIGN.md section 3, harness rt, C08"),
+    "C09": {"level": "fault_enumeration",
+            "text": "Device faults are scripted into the mock devices: camera get_frame failing at call k, storage append reporting a non-running "
+                    "state at packet k, camera/storage start failing; k and the regime (fast camera + slow storage so the source is blocked on a full "
+                    "ring, tiny rings, two streams) are generated. Oracle: no append reaches storage after its failure, storage input is a prefix of "
+                    "the delivered frames, camera and storage are stopped, the acquisition winds down (hang detector), stop and abort return, state "
+                    "is not Running afterwards, and a later fault-free acquisition satisfies the C04 oracle (no leftovers).",
+            "note": _RT_NOTE + " Fault indices are sampled (0..11 and relative to the frame count), not yet enumerated exhaustively per scenario.",
+            "technique": "fault injection at the device interface x generated schedules, with hang detection and follow-up acquisition oracle",
+            "design_ref": "DESIGN.md section 3, harness rt, C09"},
+    "C10": _rt("Averaging streams (k = 2..16, integer types, frame counts that are and are not multiples of k, sink rings of 1.1-8 averaged "
+               "frames so the accumulator lands on reused memory) are checked against a double-precision mean of the k camera frames of each "
+               "window (tolerance |mean|*4e-7 + 1e-4), window frame ids, f32 shape, count and order; at most one trailing frame whose pixels "
+               "are not judged; follow-up acquisitions must not receive leftovers.",
+               "property-based testing with an independent mean oracle over generated shapes, window sizes and schedules",
+               "DESIGN.md section 3, harness rt, C10"),
     "C01": {
         "level": "exploration",
         "text": "The real channel.c runs on the real platform.c whose pthread calls are renamed onto a deterministic fiber scheduler. Generated "
